@@ -292,7 +292,11 @@ func RunC12(tier string, args []string) int {
 			defer wg.Done()
 			sem <- struct{}{}
 			defer func() { <-sem }()
+			// every other work_dir carries characters which mean something to pattern matching (the startup sweep must not care)
 			dir := filepath.Join(Scratch(), fmt.Sprintf("c12-%s-%d", j.hist, j.k))
+			if j.k%2 == 1 {
+				dir = filepath.Join(Scratch(), fmt.Sprintf("c12-%s-[%d]*", j.hist, j.k))
+			}
 			os.RemoveAll(dir)
 			os.MkdirAll(dir, 0755)
 			defer os.RemoveAll(dir)
